@@ -59,6 +59,7 @@ impl<H: Hasher> BatchMerkleProof<H> {
             assert_eq!(depth, path.len(), "not all paths have the same length");
             path_map.insert(index, path);
         }
+        let original_indexes = indexes;
         let indexes = path_map.keys().cloned().collect::<Vec<_>>();
         let paths = path_map.values().cloned().collect::<Vec<_>>();
         path_map.clear();
@@ -101,6 +102,13 @@ impl<H: Hasher> BatchMerkleProof<H> {
 
             core::mem::swap(&mut path_map, &mut next_path_map);
         }
+
+        // leaves are listed in the order of the provided indexes (as `MerkleTree::prove_batch()`
+        // does), so that the proof verifies against the same index list
+        let leaves = original_indexes
+            .iter()
+            .map(|index| leaves[indexes.binary_search(index).expect("index not found")])
+            .collect();
 
         BatchMerkleProof { leaves, nodes, depth: (depth - 1) as u8 }
     }
